@@ -46,6 +46,32 @@ def visit_targets(paths: List[PathResult]) -> List[Tuple[NodeV, str]]:
     return out
 
 
+def interp_isa(env, q: str, base: str) -> bool:
+    return env.interp().exc_isa(q, base)
+
+
+def _bind_guard(env, p, ev, paths) -> bool:
+    """Before the dispatch, the same arguments were bound against the selected handler's signature
+    (`inspect.signature(handler).bind(*args, **kwargs)`), and a sibling path turns the TypeError of that bind into a library
+    exception."""
+    want = (repr(ev.data.get("args")), repr(ev.data.get("kwargs")))
+    found = False
+    for e2 in p.events:
+        if e2 is ev:
+            break
+        if e2.kind == "extcall":
+            f = repr(e2.data.get("func"))
+            if "inspect.signature" in f and "'bind'" in f and "dynmethod" in f and \
+                    (repr(e2.data.get("args")), repr(e2.data.get("kwargs"))) == want:
+                found = True
+    if not found:
+        return False
+    for q in paths:
+        if q.outcome == "raise" and any(k.startswith("raises TypeError") and "bind" in str(v) for k, v in q.conds):
+            return lib_exc(env, _exc_class(q.value))
+    return False
+
+
 def run(ctx: Ctx, env):
     H = heval.get(env)
     repo, schema, kf = env.repo, env.schema, env.kindflow
@@ -129,6 +155,24 @@ def run(ctx: Ctx, env):
                       f"function handlers are selected by `{d.prefix}` + {d.source}{list(d.transforms)}: the namespace is dropped, so "
                       "a call in another namespace is translated as the built-in of the same name", d.where,
                       "geo.length(x) eq 1 / foo.length(a, b) eq 1")
+
+        # ---- R10 names written in the filter must not become Python keyword names unchecked ---------------------------------
+        call_paths = H.eval_visit(vcls, "Call") or []
+        for p in call_paths:
+            for ev in p.events:
+                kd = ev.data.get("kwargs", {}).get("**") if ev.kind == "dispatch" else None
+                if kd is None:
+                    continue
+                user_keys = [k for k, _ in getattr(kd, "opaque_keys", []) if "node" in repr(k)]
+                if not user_keys:
+                    continue
+                open_sig = all(fn.args.kwarg is not None for _, fn in handlers.values()) and bool(handlers)
+                caught = any(interp_isa(env, "builtins.TypeError", c) for c in ev.data.get("caught", []))
+                guarded = _bind_guard(env, p, ev, call_paths)
+                ctx.check(open_sig or caught or guarded, "R10.parameter-names-checked-before-use-as-keywords", f"{vs}.visit_Call",
+                          f"[{vs}] the names of named parameters ({user_keys[0]!r:.60}) are passed as Python keyword names to the {d.prefix if d else ''}* handler: "
+                          "a name the handler does not have (or `self`) raises TypeError instead of a library exception", ev.where,
+                          "length(x=title) eq 1")
 
         # ---- R4 arity ----------------------------------------------------------------------------------------------------
         for hn, (ci, fn) in handlers.items():
